@@ -14,11 +14,16 @@ CONSTANTS XSet,        \* the x values orderings are drawn from
           FailMags     \* fail_mag values explored
 
 XSix == {"1/2", "1/3", "1/5", "1/7", "1/11", "1/13"}
+XFive == {"1/2", "1/3", "1/5", "1/7", "1/11"}
 XSeven == <<"1/2", "1/3", "1/5", "1/7", "1/11", "1/13", "1/17">>
 Lattice == {"-2", "-1", "0", "1", "2"}
 
 Injective(k) == {s \in [1..k -> XSet] : Distinct(s)}
-Orderings(k) == IF k = 0 THEN {<<>>} ELSE IF k = 7 THEN {XSeven} ELSE Injective(k)
+\* with fewer than six values in XSet the six-grid case uses the rotations and reflections of XSix
+SixSeq == <<"1/2", "1/3", "1/5", "1/7", "1/11", "1/13">>
+Rotations == {[j \in 1..6 |-> SixSeq[((j - 1 + r) % 6) + 1]] : r \in 0..5} \cup {[j \in 1..6 |-> SixSeq[((6 - j + r) % 6) + 1]] : r \in 0..5}
+Orderings(k) == IF k = 0 THEN {<<>>} ELSE IF k = 7 THEN {XSeven}
+                ELSE IF k = 6 /\ Cardinality(XSet) < 6 THEN Rotations ELSE Injective(k)
 Monomial(d, n) == [i \in 1..n |-> IF i = d + 1 THEN "1" ELSE "0"]
 \* degree < k: monomials (and the lattice for small k); degree = k: one polynomial that is NOT reproduced
 PolyChoices(k) ==
@@ -71,8 +76,7 @@ L_Moments ==
         /\ \A d \in 1..(Kk - 1) : RDot(Weights(xl), [j \in 1..Kk |-> RPow(xl[j], d)]) = "0"
 \* order independence: the same (x, y) pairs in decreasing-x order give the same result;
 \* since every ordering is explored this makes all k! orderings agree
-SortPerm(xs) == CHOOSE p \in [1..Len(xs) -> 1..Len(xs)] :
-                   (\A a, b \in 1..Len(xs) : a # b => p[a] # p[b]) /\ Sorted([j \in 1..Len(xs) |-> xs[p[j]]])
+SortPerm(xs) == [j \in 1..Len(xs) |-> CHOOSE a \in 1..Len(xs) : Cardinality({b \in 1..Len(xs) : RGt(xs[b], xs[a])}) = j - 1]
 L_Order ==
     (pc = "formula" /\ Kk \in 1..6) =>
         LET p == SortPerm(xl) IN
